@@ -153,3 +153,43 @@ def register(E):
                  'implies(allowed_methods is not None, set(self.allowed_methods) == set(allowed_methods))',
                  'self.status_code == self.code or (self.code is None and self.status_code == 200)'],
         prop=['C06']))
+    register_c09(E)
+
+
+def register_c09(E):
+    I = E.interp
+    from pyvc.interp import VSpecFn
+
+    def to_json_model(I, ctx, self_, *a, **kw):
+        return VStr(Z.func('JSON_OF_ERROR', Z.Obj, Z.Str)(box(self_, ctx)))
+
+    E.add_contract(Contract('clastic.errors.HTTPException.to_json', trusted=True, model=to_json_model,
+                            note='A-json: ClasticJSONEncoder(dev_mode=True).encode(self.to_dict()) is total and emits valid JSON'))
+
+    TSelf3 = TInst('clastic.errors.HTTPException',
+                   {'code': TOpt(TInt), 'message': TStr, 'detail': TStr, 'error_type': TOpt(TStr),
+                    'headers': TDict(TStr, TStr), 'charset': TStr})
+
+    @E.spec('CT_AGREES')
+    def CT_AGREES(I, ctx, ct, mimetype):
+        """the Content-Type starts with the negotiated mimetype when it is one of the four supported
+        ones, with text/plain otherwise"""
+        m = I.resolve(ctx, mimetype)
+        sup = ['text/html', 'application/json', 'text/plain', 'application/xml']
+        if isinstance(m, VNone):
+            return VBool(z3.PrefixOf(z3.StringVal('text/plain'), ct.z))
+        mz = m.z
+        chosen = z3.If(z3.Or(*[mz == z3.StringVal(s) for s in sup]), mz, z3.StringVal('text/plain'))
+        return VBool(z3.PrefixOf(chosen, ct.z))
+
+    E.add_contract(Contract(
+        'clastic.errors.HTTPException.adapt',
+        params={'self': TSelf3, 'mimetype': TOpt(TStr)},
+        ensures=['CT_AGREES(self.headers["Content-Type"], mimetype)',
+                 'implies(mimetype is not None and (mimetype == "text/html" or mimetype == "application/xml"), '
+                 'ALL_ESCAPED(self.data))'],
+        prop=['C09']))
+
+    # T: status table, by evaluation on the imported module
+    codes = E.refl['modules']['clastic.errors']['consts']
+    E.c09_ready = True
